@@ -114,6 +114,17 @@ func (o *orbitDBEventLogStore) query(options *iface.StreamOptions) ([]ipfslog.En
 		return nil, fmt.Errorf("unable to cast index to entries")
 	}
 
+	// an entry whose payload is not an operation (a writer is not bound to what
+	// this store writes) is not part of the listing: windows are taken over what
+	// can be listed, instead of ending, silently, at the first such entry
+	listed := make([]ipfslog.Entry, 0, len(events))
+	for _, e := range events {
+		if _, err := operation.ParseOperation(e); err == nil {
+			listed = append(listed, e)
+		}
+	}
+	events = listed
+
 	amount := 1
 	if options.Amount != nil {
 		if *options.Amount == 0 {
